@@ -77,10 +77,10 @@ theorem term_acc_eq (c : Cfg) (s : S) (code : Nat) :
 response slot), then the accepted call -/
 theorem terminateG_eq (c : Cfg) (s : S) (hid code : Nat) :
     terminateG c s hid code id =
-      if !parked s then s else if s.resp.isSome then s else if s.cleaned then s else if !(hid == c.gen) then s
+      if !asleep s then s else if s.resp.isSome then s else if s.cleaned then s else if !(hid == c.gen) then s
       else if s.urr then s else terminateAcc c s code := by
   unfold terminateG
-  by_cases hp : parked s = true
+  by_cases hp : asleep s = true
   · simp only [hp, Bool.not_true, Bool.false_eq_true, if_false]
     rw [← term_acc_eq]
     unfold Gen.ProxyTerminate.terminateStream Gen.ProxyTerminate.claim Gen.ProxyTerminate.commit
@@ -91,7 +91,7 @@ theorem terminateG_eq (c : Cfg) (s : S) (hid code : Nat) :
 /-- the label `terminate` (a handler of this very request) in closed form -/
 theorem terminateL_eq (c : Cfg) (s : S) (code : Nat) :
     terminateL c s code =
-      if !parked s then s else if s.resp.isSome then s else if s.cleaned then s else if s.urr then s
+      if !asleep s then s else if s.resp.isSome then s else if s.cleaned then s else if s.urr then s
       else terminateAcc c s code := by
   unfold terminateL
   rw [terminateG_eq]
@@ -115,7 +115,7 @@ the call with the interleaved frame is the plain call -/
 theorem terminateRaced_eq (c : Cfg) (s : S) (code k : Nat) (d t : Bool) :
     terminateG c s c.gen code (fun s => lateRecv s k d t) = terminateL c s code := by
   unfold terminateL terminateG
-  by_cases hp : parked s = true
+  by_cases hp : asleep s = true
   · simp only [hp, Bool.not_true, Bool.false_eq_true, if_false]
     unfold Gen.ProxyTerminate.terminateStream Gen.ProxyTerminate.claim
     cases h1 : s.resp.isSome <;> cases h2 : s.cleaned <;> cases h4 : s.urr <;>
